@@ -67,6 +67,8 @@ class Engine:
         self.max_samples = 3
         self.deadline = None
         self.fresh_id = 0
+        self.sentinels = {}
+        self.sentinel_terms = {}
 
     # ---------------------------------------------------------------- inputs
     def int(self, name, lo=None, hi=None):
@@ -91,6 +93,21 @@ class Engine:
         v = z3.Bool(name)
         self.vars[name] = v
         return SymBool(self, v)
+
+    def sentinel(self, e):
+        key = e.get_id()
+        hit = self.sentinels.get(key)
+        if hit is None:
+            hit = (e, SentinelInt(SENTINEL_BASE + 7919 * (len(self.sentinels) + 1)))
+            self.sentinels[key] = hit
+            self.sentinel_terms[int.__int__(hit[1])] = e
+        return hit[1]
+
+    def unsentinel(self, v):
+        """int or decimal text -> SymInt if it is a sentinel, else the int itself"""
+        n = int.__int__(v) if isinstance(v, int) else int(v)
+        e = self.sentinel_terms.get(n)
+        return SymInt(self, e) if e is not None else n
 
     def fresh_int(self, stem="t"):
         self.fresh_id += 1
@@ -300,6 +317,8 @@ class Engine:
             self.lit = {}
             self.model = None
             self.fresh_id = 0
+            self.sentinels = {}
+            self.sentinel_terms = {}
             self._reached_this_path = False
             self.solver.push()
             try:
@@ -324,6 +343,31 @@ class Engine:
                 "n_inconclusive": len(self.inconclusive), "labels": dict(self.labels),
                 "samples": self.samples, "excluded": dict(self.excluded),
                 "known_hits": dict(self.known_hits)}
+
+
+class SentinelMisuse(Exception):
+    pass
+
+
+class SentinelInt(int):
+    """printable stand-in for a symbolic int; any arithmetic or comparison on it is a harness error"""
+    def _bad(self, *a, **k):
+        raise SentinelMisuse("sentinel of a symbolic int used in a computation (int()/%d result reused)")
+    __add__ = __radd__ = __sub__ = __rsub__ = __mul__ = __rmul__ = __floordiv__ = __rfloordiv__ = _bad
+    __truediv__ = __rtruediv__ = __mod__ = __rmod__ = __neg__ = __abs__ = _bad
+    __lt__ = __le__ = __gt__ = __ge__ = _bad
+    __hash__ = int.__hash__
+
+    def __eq__(self, o):
+        if isinstance(o, SentinelInt):
+            return int.__eq__(self, o)
+        self._bad()
+
+    def __ne__(self, o):
+        return not self.__eq__(o)
+
+
+SENTINEL_BASE = 7 * 10 ** 15
 
 
 # -------------------------------------------------------------------- helpers
@@ -628,8 +672,13 @@ class SymInt:
     def __bool__(self): return self.g.branch(self.e != 0)
     def __hash__(self): return hash(self.g.concretize(self.e))
     def __index__(self): return self.g.concretize(self.e)
-    def __int__(self): return self.g.concretize(self.e)
     def __round__(self, n=None): return self
+
+    # text rendering: "%d" % x, str(x), f"{x}" give a unique sentinel number that the harness maps back
+    # to the term (g.unsentinel); the sentinel refuses arithmetic, so it cannot leak into computations
+    def __int__(self): return self.g.sentinel(self.e)
+    def __str__(self): return str(int.__int__(self.g.sentinel(self.e)))
+    def __format__(self, spec): return format(int.__int__(self.g.sentinel(self.e)), spec)
     def __repr__(self): return "SymInt(%s)" % self.e
 
     def __float__(self):
@@ -832,6 +881,9 @@ class ConcreteEngine:
 
     def excl(self, d):
         return {k: v for k, v in d.items() if k in self.active}
+
+    def unsentinel(self, v):
+        return int(v)
 
     def holds(self, cond):
         return bool(cond)
